@@ -877,7 +877,7 @@ func ruleWanted(prop, r string) bool {
 	case "C05":
 		return r == "gate" || r == "size" || r == "eof" || r == "ext"
 	case "C07":
-		return r == "utf8"
+		return r == "utf8" || r == "state"
 	case "C13":
 		return r == "ext"
 	case "C15":
